@@ -134,7 +134,7 @@ func parseContractFile(path string, pkgPath string, pc *PkgContracts) error {
 			if m == nil {
 				return fmt.Errorf("%s:%d: bad %s declaration", path, startLine, word)
 			}
-			pc.Ghosts = append(pc.Ghosts, &GhostDecl{Kind: word, Name: m[1], Src: src, File: path, Line: startLine})
+			pc.Ghosts = append(pc.Ghosts, &GhostDecl{Kind: word, Name: m[1], Src: rewriteGhostSrc(src), File: path, Line: startLine})
 			cur = nil
 		case "func":
 			key := strings.TrimSpace(rest)
@@ -333,4 +333,26 @@ func splitTop(s string, sep byte) []string {
 	}
 	out = append(out, s[start:])
 	return out
+}
+
+var reOneLineRet = regexp.MustCompile(`^(.*\{\s*)return\s+(.*?)(\s*\}\s*)$`)
+
+// rewriteGhostSrc applies the contract surface syntax (==>, forall x T :: ...) inside ghost/lemma
+// function source: in "return E", "assert(E)" and "assume(E)".
+func rewriteGhostSrc(src string) string {
+	lines := strings.Split(src, "\n")
+	for i, ln := range lines {
+		t := strings.TrimSpace(ln)
+		switch {
+		case strings.HasPrefix(t, "return ") && !strings.HasSuffix(t, "{"):
+			lines[i] = "return " + rewriteSpec(strings.TrimPrefix(t, "return "))
+		case (strings.HasPrefix(t, "assert(") || strings.HasPrefix(t, "assume(")) && strings.HasSuffix(t, ")"):
+			lines[i] = t[:7] + rewriteSpec(t[7:len(t)-1]) + ")"
+		default:
+			if m := reOneLineRet.FindStringSubmatch(ln); m != nil && strings.HasPrefix(strings.TrimSpace(m[1]), "func") {
+				lines[i] = m[1] + "return " + rewriteSpec(m[2]) + m[3]
+			}
+		}
+	}
+	return strings.Join(lines, "\n")
 }
